@@ -155,6 +155,16 @@ def decide(prop, tier, jobs, only, relock, seed, t0):
                     log("[replay] extracting Kani's counterexample for %s" % o["harness"])
                     r["replay"] = R.kani_counterexample(scratch, o, r, min(hto, 900), native_exe)
                     log("[replay]   native result: %s" % r["replay"].get("native_result", r["replay"].get("why")))
+        # Verus gives no model: bounded witness search through the public entry point for failed
+        # termination / panic obligations of parser functions (documentation of the violation only)
+        for oid, r in results.items():
+            if r.get("engine") == "verus/z3" and r["status"] == "failed" and r.get("witness_hint") and not os.environ.get("VERIF_NO_WITNESS_SEARCH"):
+                if any(k in (r.get("note") or "") for k in ("decreases", "arithmetic", "precondition", "assertion", "unreachable", "index")):
+                    log("[replay] searching a concrete witness for %s" % oid)
+                    h = r.pop("witness_hint")
+                    r["replay"] = R.witness_search(scratch, h["source"], h["text"])
+                    log("[replay]   %s" % (r["replay"].get("native_result") or r["replay"].get("why")))
+            r.pop("witness_hint", None)
         # ---------------- verdict ----------------
         return verdict(prop, tier, seed, t0, results, kobs, vunits, meta, lock, findings, relock, bool(only), scratch)
     finally:
